@@ -76,8 +76,9 @@ func VerifHarness_C03_replay() {
 		verifAssume(H == 2)
 	}
 	isApp := make([]bool, H+1)
+	twoLetter := H >= 1 && persist && ndBool("two-letter-application-type")
 	fwd := false
-	if H >= 1 && persist {
+	if H >= 1 && persist && !twoLetter {
 		// one choice for the whole history (per-message choice doubles the paths per message for no new replay behaviour)
 		fwd = ndBool("forwarded-resend")
 	}
@@ -103,6 +104,9 @@ func VerifHarness_C03_replay() {
 		case 1:
 			isApp[i] = true
 			m.Header.SetString(tagMsgType, "D")
+			if twoLetter {
+				m.Header.SetString(tagMsgType, "AE") // an application type whose first letter is that of the Logon
+			}
 			m.Body.SetString(Tag(11), "ID")
 			m.Body.SetBytes(Tag(58), verifValueN("text", 1))
 		case 2:
@@ -183,7 +187,7 @@ func VerifHarness_C03_replay() {
 				}
 				next = ns
 			} else {
-				verifAssert(w.is("D"), "only-application-messages-are-replayed")
+				verifAssert(w.is("D") || w.is("AE"), "only-application-messages-are-replayed")
 				verifAssert(persist, "no-replay-without-persistence")
 				if w.seq >= 1 && w.seq <= last {
 					o := &orig[w.seq]
@@ -204,7 +208,7 @@ func VerifHarness_C03_replay() {
 		// that was not refused appears exactly once
 		replayed := 0
 		for i := range ws {
-			if ws[i].is("D") {
+			if ws[i].is("D") || ws[i].is("AE") {
 				replayed++
 			}
 		}
